@@ -428,8 +428,50 @@ fn gen_query(r: &mut Rng, net: &Net, qid: usize) -> (Value, &'static str) {
             let g = (*r.pick(&[&json!({}), &json!({"a": []}), &json!({"a": [1], "b": []}), &json!(7), &json!({"grid_search": [1]}), &json!({"k": "not an array"})])).clone();
             (json!({"origin_vertex": v(r), "destination_vertex": v(r), "grid_search": g}), "grid_degenerate")
         }
-        _ => (json!({}), "empty_object"),
+        97..=98 => (json!({}), "empty_object"),
+        _ => (json!({"origin_vertex": v(r), "destination_vertex": v(r)}), "valid"),
     };
+    // per-query state_features overrides (same feature names, other units / initial values)
+    let sf = |r: &mut Rng| -> Value {
+        let mut m = Map::new();
+        if r.chance(3, 4) {
+            m.insert("distance".into(), json!({"distance_unit": *r.pick(&["miles", "meters", "kilometers"]), "initial": *r.pick(&[0.0, 100.0, 5.5])}));
+        }
+        if m.is_empty() || r.chance(1, 3) {
+            m.insert("time".into(), json!({"time_unit": *r.pick(&["minutes", "hours", "seconds"]), "initial": *r.pick(&[0.0, 30.0])}));
+        }
+        Value::Object(m)
+    };
+    let mut fam = fam;
+    if fam == "valid" && r.chance(1, 6) {
+        q["state_features"] = sf(r);
+        fam = "state_features";
+    }
+    if fam == "valid" && r.chance(1, 8) {
+        // grid section whose object-valued options have different key sets and set keys that
+        // change the search
+        let mut opts = vec![json!({"scenario": "short", "weights": {"distance": 1, "time": 0}}), json!({"scenario": "default"})];
+        if r.chance(1, 2) {
+            opts.push(json!({"scenario": "b"}));
+        }
+        if r.chance(1, 2) {
+            opts.push(json!({"scenario": "wf", "weight_factor": 2.0}));
+        }
+        if r.chance(1, 2) {
+            opts.push(json!({"scenario": "sf", "state_features": sf(r)}));
+        }
+        if r.chance(1, 3) {
+            opts.push(json!({"scenario": "agg", "cost_aggregation": "mul", "weights": {"distance": 1, "time": 1}}));
+        }
+        r.shuffle(&mut opts);
+        let mut g = Map::new();
+        g.insert("_scenario".into(), json!(opts));
+        if r.chance(1, 3) {
+            g.insert("destination_vertex".into(), json!([v(r), v(r)]));
+        }
+        q["grid_search"] = Value::Object(g);
+        fam = "grid_objects";
+    }
     if let Some(o) = q.as_object_mut() {
         if fam != "grid_weight" {
             if let Some(w) = gen_weight(r) {
@@ -660,7 +702,7 @@ fn run_cfg(override_p: Option<usize>, discard: bool, sink_file: Option<&Path>) -
 /// InputPlugin::process on every element of every stage (also past a failing sibling, so that the
 /// tables describe every expanded query) and the real weight reader / run_single_query /
 /// package_error on the fully processed elements.
-fn add_query_to_tables(app: &CompassApp, q: &Value, t: &mut Tables, el: &mut Elems, intern: &mut Intern) -> bool {
+fn add_query_to_tables(app: &CompassApp, fresh: &dyn Fn() -> CompassApp, q: &Value, t: &mut Tables, el: &mut Elems, intern: &mut Intern) -> bool {
     let qid = el.id(q);
     t.qids.push(qid);
     if !q.is_object() {
@@ -728,7 +770,16 @@ fn add_query_to_tables(app: &CompassApp, q: &Value, t: &mut Tables, el: &mut Ele
                 t.kids.insert(id, (W::Bad, intern.id(canonical(&resp))));
             }
             Ok(w) => {
-                let resp = run_single_query(&c, &app.search_orientation, &app.output_plugins, &app.search_app)
+                // a query with its own state_features is answered by an application that has
+                // never answered anything else (the reference must not depend on history)
+                let own;
+                let a: &CompassApp = if has_state_features(&c) {
+                    own = fresh();
+                    &own
+                } else {
+                    app
+                };
+                let resp = run_single_query(&c, &a.search_orientation, &a.output_plugins, &a.search_app)
                     .unwrap_or_else(|e| json!({"request": c, "error": format!("run_single_query Err {}", e)}));
                 t.kids.insert(id, (w.map(W::Num).unwrap_or(W::None), intern.id(canonical(&resp))));
             }
@@ -737,15 +788,86 @@ fn add_query_to_tables(app: &CompassApp, q: &Value, t: &mut Tables, el: &mut Ele
     grid_children >= 2 && later_err
 }
 
+fn has_state_features(v: &Value) -> bool {
+    serde_json::to_string(v).map(|t| t.contains("state_features")).unwrap_or(false)
+}
+
+/// the expansion of a grid-search query computed from the query text alone (independent of
+/// the plugin): the cartesian product of the array-valued fields of the section; an object-valued
+/// option sets its own keys, any other value sets the field's key; None for a query without a
+/// (well-formed) section
+fn ideal_children(q: &Value) -> Option<Vec<Value>> {
+    let qo = q.as_object()?;
+    let g = qo.get("grid_search")?.as_object()?;
+    if serde_json::to_string(g).ok()?.contains("grid_search") {
+        return None;
+    }
+    let fields: Vec<(&String, &Vec<Value>)> = g.iter().filter_map(|(k, v)| v.as_array().map(|a| (k, a))).collect();
+    if fields.is_empty() || fields.iter().any(|(_, a)| a.is_empty()) {
+        return None;
+    }
+    let mut base = qo.clone();
+    base.remove("grid_search");
+    let mut out: Vec<Map<String, Value>> = vec![base];
+    for (k, options) in fields {
+        let mut next = vec![];
+        for partial in &out {
+            for opt in options {
+                let mut c = partial.clone();
+                match opt {
+                    Value::Object(o) => {
+                        for (k2, v2) in o {
+                            c.insert(k2.clone(), v2.clone());
+                        }
+                    }
+                    other => {
+                        c.insert(k.clone(), other.clone());
+                    }
+                }
+                next.push(c);
+            }
+        }
+        out = next;
+    }
+    Some(out.into_iter().map(Value::Object).collect())
+}
+
 fn build_tables(ctx: &mut Ctx, queries: &[Value], lb: bool, iter: bool, intern: &mut Intern, el: &mut Elems) -> Tables {
     let mut t = Tables::default();
-    let app1 = ctx.app(REF, lb, iter);
+    ctx.app(REF, lb, iter);
+    let app1 = &ctx.apps[&(REF, lb, iter)];
+    let (net, energy, cache) = (&ctx.net, ctx.energy, ctx.cache);
+    // a fresh reference application (parallelism 1, never a cache)
+    let fresh = || -> CompassApp {
+        if energy {
+            let grid = if cache { Some(ECACHE_PRECISIONS[(lb as usize + 2 * iter as usize) % 3]) } else { None };
+            build_energy_app(net, 1, lb, iter, false, grid)
+        } else {
+            build_app(net, 1, lb, iter)
+        }
+    };
     let cfg1 = run_cfg(Some(1), false, None);
+    // one query alone at parallelism 1; on a FRESH application when it carries state_features
+    let run_alone = |x: &Value| -> Vec<Value> {
+        let own;
+        let a: &CompassApp = if has_state_features(x) {
+            own = fresh();
+            &own
+        } else {
+            app1
+        };
+        a.run(vec![x.clone()], Some(&cfg1)).unwrap_or_else(|e| vec![json!({"request": x, "error": format!("run Err {}", e)})])
+    };
     for (i, q) in queries.iter().enumerate() {
-        let k = add_query_to_tables(app1, q, &mut t, el, intern);
+        let k = add_query_to_tables(app1, &fresh, q, &mut t, el, intern);
         t.in_k.push(k);
-        // the query alone (the property's reference)
-        let rs = app1.run(vec![q.clone()], Some(&cfg1)).unwrap_or_else(|e| vec![json!({"request": q, "error": format!("run Err {}", e)})]);
+        // the property's reference: every expanded query (expansion computed from the query text,
+        // independently of the plugin) run alone; the whole query alone when it has no well-formed
+        // grid section or is in the class K_child_error_drops_siblings (reported by the expansion cases)
+        let rs: Vec<Value> = match ideal_children(q) {
+            Some(children) if !k => children.iter().flat_map(|c| run_alone(c)).collect(),
+            _ => run_alone(q),
+        };
         if !rs.iter().all(|r| r.get("request").map(|req| answers(req, q)).unwrap_or(false)) {
             t.echo_bad.push(i);
         }
@@ -1211,6 +1333,45 @@ fn stream_batch(a: &Args, energy: bool, cache: bool) {
                         expansion_case(&mut st, &mut ctx, net_seed, &b, lb, false, "expansion");
                     }
                 }
+            }
+        }
+    }
+    // ---- per-query state_features overrides next to plain queries, and grid sections whose
+    //      object-valued options have different key sets: several orders, and one query per run
+    //      on the same application instance (run([A]) then run([B]))
+    {
+        let mk = |mut q: Value| -> Value {
+            if energy {
+                q["model_name"] = json!("Toyota_Camry");
+            }
+            q
+        };
+        let a_q = mk(json!({"name": "A", "origin_vertex": 0, "destination_vertex": 18, "query_weight_estimate": 1}));
+        let b_q = mk(json!({"name": "B", "origin_vertex": 0, "destination_vertex": 18, "query_weight_estimate": 1,
+            "state_features": {"distance": {"distance_unit": "miles", "initial": 100.0}}}));
+        let c_q = mk(json!({"name": "C", "origin_vertex": 0, "destination_vertex": 18, "query_weight_estimate": 2,
+            "state_features": {"distance": {"distance_unit": "meters", "initial": 0.0}, "time": {"time_unit": "seconds", "initial": 30.0}}}));
+        let g_q = mk(json!({"name": "G", "origin_vertex": 0, "destination_vertex": 18, "query_weight_estimate": 1,
+            "grid_search": {"_scenario": [
+                {"scenario": "short", "weights": {"distance": 1, "time": 0}},
+                {"scenario": "default"},
+                {"scenario": "default_b"},
+                {"scenario": "sf", "state_features": {"distance": {"distance_unit": "miles", "initial": 100.0}}},
+                {"scenario": "wf", "weight_factor": 2.0}]}}));
+        let qs = vec![a_q, b_q, c_q, g_q];
+        let fs = vec!["valid", "state_features", "state_features", "grid_objects"];
+        let orders: Vec<Vec<usize>> = vec![
+            vec![0, 1], vec![1, 0], vec![0], vec![1], vec![2], vec![0], vec![2, 0, 1], vec![1, 2, 0, 0, 1],
+            vec![3], vec![0, 3], vec![3, 1, 0], vec![3, 3],
+        ];
+        let mut cache = HashMap::new();
+        for (j, order) in orders.iter().enumerate() {
+            for (p_cfg, p_run, lb) in [(1usize, None, false), (2, Some(3usize), false), (3, None, true)] {
+                if st.next_id() >= a.n {
+                    break;
+                }
+                let cfg = Cfg { p_cfg, p_run, lb, iter: false, discard: j % 4 == 3, sink: true, threads: *[1usize, 4, 16].get(j % 3).unwrap(), reps: 2 };
+                batch_case(&mut st, &mut ctx, net_seed, &qs, &fs, order, &cfg, &mut cache, "state_features_and_object_grids");
             }
         }
     }
